@@ -169,7 +169,15 @@ func createMethodMatcher(methods []string) (methodMatcher, error) {
 	methods = slicex.Subtract(methods, tbr)
 	tbr = slicex.Map[string, string](tbr, func(s string) string { return strings.TrimPrefix(s, "!") })
 
-	return slicex.Subtract(methods, tbr), nil
+	methods = slicex.Subtract(methods, tbr)
+	if len(methods) == 0 {
+		// an empty matcher would allow every method, the opposite of what has been configured
+		return nil, errorchain.NewWithMessage(heimdall.ErrConfiguration,
+			"methods list does not allow any method. "+
+				"have you forgotten to put ALL in front of the exclusions?")
+	}
+
+	return methods, nil
 }
 
 func createHostMatcher(hosts []config.HostMatcher) (RouteMatcher, error) {
